@@ -158,10 +158,38 @@ def parseConc (ts : List String) : Option ConcCase :=
     pure { pre := pre, threads := ths }
   | _ => none
 
+/-- bulk case `B <K> <pre> <adds>`: the pre ops, then all the adds through ONE `add_rules_from_grl` call, which is
+`add_rule` on each rule of the text in source order, stopping at the first error. Expected observation =
+`g<count>` (all added) or `gerr` (a duplicate name met), the version and the snapshot after the adds that succeeded. -/
+def bulkApplied : KB → List Op → List Op × Bool
+  | _, [] => ([], false)
+  | kb, op :: rest =>
+    match (step kb op).2 with
+    | .errDup => ([], true)
+    | _ => let r := bulkApplied (step kb op).1 rest; (op :: r.1, r.2)
+
+def bulkLine (ts : List String) : Option String :=
+  match ts with
+  | ["B", kk, pre, bulk] => do
+    let K ← kk.toNat?
+    let pre ← parseOps 0 pre
+    let bulk ← parseOps pre.length bulk
+    if bulk.any (fun op => match op with | .add r => !r.enabled | _ => true) then none else
+    let kb1 := pre.foldl (fun kb op => (step kb op).1) KB.init
+    let (applied, failed) := bulkApplied kb1 bulk
+    let tr := trace K true KB.init (pre ++ applied ++ [.version])
+    match tr.getLast? with
+    | some o =>
+      let res := if failed then "gerr" else s!"g{bulk.length}"
+      pure (s!"{res}:{o.version}" ++ (match o.snap with | some sn => "/" ++ showSnap sn | none => ""))
+    | none => none
+  | _ => none
+
 def modelLine (line : String) : String :=
   let ts := tokens line
   match ts with
   | "C" :: _ => "-"
+  | "B" :: _ => (bulkLine ts).getD "bad-case"
   | _ =>
     match parseSeq ts with
     | some c =>
@@ -265,6 +293,15 @@ def oracleLine (line : String) : String :=
     | "C" :: _ =>
       match parseConc ts with
       | some cc => oracleConc cc o
+      | none => "bad-input"
+    | "B" :: _ =>
+      -- the expected observation is computed from the sequential model (proved equal to the spec: kb_refines_spec)
+      match bulkLine ts with
+      | some ex =>
+        if o.startsWith "panic" then "fail panic"
+        else if o == ex then (if ex.startsWith "gerr" then "ok bulk bulk_dup nontrivial" else "ok bulk nontrivial")
+        else if (o.splitOn ":").head? != (ex.splitOn ":").head? then "fail bulk-result"
+        else "fail bulk-state"
       | none => "bad-input"
     | _ =>
       match parseSeq ts with
